@@ -43,6 +43,7 @@ func teaserGarbage(r *mon.Rand, g []byte, term []byte) ([]byte, int) {
 	if len(g) < 16 {
 		g = append(g, r.Bytes(16+r.Intn(40)-len(g))...)
 	}
+	orig := append([]byte(nil), g...)
 	// prefer a prefix length m at which the terminator repeats its first byte (a matcher that restarts from scratch
 	// on a mismatch loses exactly these)
 	var ms []int
@@ -51,28 +52,26 @@ func teaserGarbage(r *mon.Rand, g []byte, term []byte) ([]byte, int) {
 			ms = append(ms, m)
 		}
 	}
-	m := 1 + r.Intn(15)
-	if len(ms) > 0 {
-		m = ms[r.Intn(len(ms))]
-	}
-	for i := 0; i < 3 && len(g) > 40; i++ {
-		j := 1 + r.Intn(15)
-		at := r.Intn(len(g) - 32)
-		copy(g[at:], term[:j])
-	}
-	// the first occurrence of the terminator in garbage || terminator must be the real one (a terminator that overlaps
-	// itself, e.g. T[15] == T[0] with m = 15, would otherwise end the garbage early for every conforming receiver)
-	tail := append([]byte(nil), g[len(g)-16:]...)
 	for try := 0; try < 20; try++ {
-		copy(g[len(g)-16:], tail)
-		copy(g[len(g)-m:], term[:m])
-		if bytes.Index(append(append([]byte(nil), g...), term...), term) == len(g) {
-			return g, m
+		c := append([]byte(nil), orig...)
+		m := 1 + r.Intn(15)
+		if len(ms) > 0 && try < 10 {
+			m = ms[r.Intn(len(ms))]
 		}
-		m = 1 + r.Intn(15)
+		for i := 0; i < 3 && len(c) > 40; i++ {
+			j := 1 + r.Intn(15)
+			at := r.Intn(len(c) - 32)
+			copy(c[at:], term[:j])
+		}
+		copy(c[len(c)-m:], term[:m])
+		// the first occurrence of the terminator in garbage || terminator must be the real one: overlapping
+		// fragments, or a terminator that overlaps itself (T[15] == T[0] with m = 15), can assemble an earlier one,
+		// which every conforming receiver would have to honour
+		if bytes.Index(append(append([]byte(nil), c...), term...), term) == len(c) {
+			return c, m
+		}
 	}
-	copy(g[len(g)-16:], tail)
-	return g, 0
+	return orig, 0
 }
 
 var wellKnownMagics = []uint32{0xd9b4bef9, 0x0709110b, 0xdab5bffa, 0x12141c16, 0x283f161c, 0x40cf030a}
